@@ -72,7 +72,7 @@ def main():
     ck.encoded("ImageD11/finite_strain.py:DeformationGradientTensor.__init__/SVD/VRS/U/finite_strain_ref/finite_strain_lab", "ImageD11/finite_strain.py:e6_to_symm/symm_to_e6",
                "ImageD11/grain.py:grain.eps_grain_matrix/eps_sample_matrix/eps_grain/eps_sample", "ImageD11/sinograms/tensor_map.py:ubi_and_unitcell_to_eps_sample/_crystal, tensor_crystal_to_sample, tensor_sample_to_crystal (py_func bodies)",
                "ImageD11/sinograms/tensor_map.py:TensorMap.eps_sample/eps_crystal (derived-map routes)")
-    ck.bound("unbounded values: reference UB0 free 3x3, stretch S0 symmetric with 6 free entries, rotation R = Rx.Ry.Rz", "Seth-Hill exponents: 2m in {2, 4} exactly (no SVD in that code path); m in {0.5, 1.5, 0} through the SVD contract stub (wiring and symmetry)",
+    ck.bound("unbounded values: reference UB0 free 3x3, stretch S0 symmetric with 6 free entries, rotation R = Rx.Ry.Rz", "Seth-Hill exponents: m = 1 exactly for every rotation and stretch (quick and thorough); m = 2 exactly for pure stretches and, as a stretch obligation, with a symbolic rotation (thorough) - no SVD in that code path; m in {0.5, 1.5, 0} through the SVD contract stub (wiring and symmetry)",
              "m = -1, -0.5 need matrix inverses of symbolic products and are not covered; 'agree to first order for all m' is not covered")
     ck.assume("real-arithmetic model; rotations as products of three axis rotations with constrained sin/cos pairs", "np.linalg.svd is a contract stub returning fresh factors: that w.diag(s).vh = F with orthogonal w, vh is numpy's contract; that vh^T.diag(s).vh is the symmetric "
               "square root of F^T.F is the textbook polar-decomposition theorem (trusted)", "np.log is an uninterpreted function")
@@ -81,9 +81,10 @@ def main():
     def FSpatch(): return pysym.patched((FS, "np", NP2))
 
     # ---- T1/T2: exact Seth-Hill tensors for even 2m, objectivity, symmetry
-    def run_even(m):
+    def run_even(m, noR=False):
         def run():
             ubi = free("ubi_"); UB0 = free("ub0_"); S0 = symm("S"); R, cs = rot("r")
+            if noR: R = I3 + 0 * R          # pure stretch (no rotation): the degree-8 identities with a symbolic rotation are a stretch obligation
             with FSpatch():
                 D = FS.DeformationGradientTensor(ubi, UB0)
                 goals = eqm("F = ubi^T.ub0^T", D.F, np.dot(ubi.T, UB0.T))
@@ -189,7 +190,10 @@ def main():
     def replay(vals, label):
         hit, msg = concrete_checks(label)
         return hit, msg
-    jobs = [("even-m[m=%g]" % m, run_even(m), dict(replay=replay, timeout_ms=tmo, keyfn=lambda n, l: "finite_strain:even-m:" + l.split("[")[0][:30])) for m in ((1, 2) if thorough else (1,))]
+    jobs = [("even-m[m=1]", run_even(1), dict(replay=replay, timeout_ms=tmo, keyfn=lambda n, l: "finite_strain:even-m:" + l.split("[")[0][:30]))]
+    if thorough:
+        jobs += [("even-m[m=2, pure stretch]", run_even(2, True), dict(replay=replay, timeout_ms=tmo, keyfn=lambda n, l: "finite_strain:even-m:" + l.split("[")[0][:30])),
+                 ("even-m[m=2]", run_even(2), dict(replay=replay, timeout_ms=tmo, stretch=True, keyfn=lambda n, l: "finite_strain:even-m:" + l.split("[")[0][:30]))]
     jobs += [("unstrained", run_zero, dict(replay=replay, timeout_ms=tmo, keyfn=lambda n, l: "finite_strain:unstrained")),
              ("svd-routes", run_svd, dict(replay=replay, timeout_ms=tmo, keyfn=lambda n, l: "finite_strain:svd-wiring:" + l.split("[")[0][:30])),
              ("grain-wrappers", run_grain, dict(replay=replay, timeout_ms=tmo, keyfn=lambda n, l: "grain.eps:" + l.split("[")[0][:40])),
